@@ -1,6 +1,9 @@
 package PKGNAME
 
-import "io"
+import (
+	"io"
+	"io/fs"
+)
 
 // C12: WriteTo into a sink that starts failing at byte offset k.
 func HarnessC12Sink() {
@@ -111,6 +114,33 @@ func HarnessC12Once() {
 	svAssert(int(n) == fw.acc, "count-mismatch")
 }
 
+// hxFlakyFS serves one file; the first Open (attach time) succeeds, later ones
+// fail (mode 1) or hand out a file whose Read fails after the data (mode 2).
+type hxFlakyFS struct {
+	data  []byte
+	mode  int
+	opens int
+}
+
+type hxFlakyFile struct {
+	hxFailRS
+	name string
+}
+
+func (f *hxFlakyFile) Stat() (fs.FileInfo, error) { return nil, hxProdErr }
+func (f *hxFlakyFile) Close() error               { return nil }
+
+func (f *hxFlakyFS) Open(name string) (fs.File, error) {
+	f.opens++
+	if f.opens == 1 {
+		return &hxFlakyFile{hxFailRS: hxFailRS{data: f.data}, name: name}, nil
+	}
+	if f.mode == 1 {
+		return nil, hxProdErr
+	}
+	return &hxFlakyFile{hxFailRS: hxFailRS{data: f.data, mode: f.mode}, name: name}, nil
+}
+
 type hxFailRS struct {
 	data []byte
 	off  int
@@ -206,7 +236,16 @@ func HarnessC12Producer() {
 		if idx == victim {
 			fail = mode
 		}
-		m.AttachReadSeeker("att.txt", &hxFailRS{data: []byte(hxFileData[1]), mode: fail}, WithFileEncoding(fe))
+		if fail != 0 && svPick("attachment-source", 2) == 1 {
+			// a file from an fs.FS that opens fine when it is attached and fails when
+			// the message is rendered (removed meanwhile / read error)
+			if err := m.AttachFromIOFS("dir/att.txt", &hxFlakyFS{data: []byte(hxFileData[1]), mode: fail}, WithFileEncoding(fe)); err != nil {
+				svAssert(false, "setup-iofs")
+				return
+			}
+		} else {
+			m.AttachReadSeeker("att.txt", &hxFailRS{data: []byte(hxFileData[1]), mode: fail}, WithFileEncoding(fe))
+		}
 		idx++
 	}
 	w := &hxRecW{}
